@@ -31,6 +31,12 @@ func SameVal(a, b ssa.Value) bool {
 	if oka && okb {
 		return ca.Value != nil && cb.Value != nil && ca.Value.ExactString() == cb.Value.ExactString()
 	}
+	if fa, ok1 := a.(*ssa.FieldAddr); ok1 {
+		if fb, ok2 := b.(*ssa.FieldAddr); ok2 {
+			// the address of the same (embedded / grouping) struct field of the same base
+			return fa.Field == fb.Field && SameVal(fa.X, fb.X)
+		}
+	}
 	ua, oka := a.(*ssa.UnOp)
 	ub, okb := b.(*ssa.UnOp)
 	if oka && okb && ua.Op == token.MUL && ub.Op == token.MUL {
